@@ -43,6 +43,8 @@ const FAULT_KINDS: &[&str] = &[
   "dependency_broken_then_healed",
   "garbled_many",
   "placeholder_names",
+  "unchanged_documents_in_batch",
+  "emptied_document",
 ];
 
 struct FaultPlan {
@@ -60,7 +62,11 @@ impl FaultPlan {
     self.enabled.contains(&kind) && self.rng.chance(num, den)
   }
   fn text_faults(&mut self, text: String) -> String {
-    if self.on("torn_document", 1, 10) {
+    if self.on("emptied_document", 1, 25) {
+      // select all, delete: the document is empty or nothing but white space
+      self.fired.inc("emptied_document");
+      self.rng.pick(&["", "", "\n", "  ", "\n\n", "\t\n"]).to_string()
+    } else if self.on("torn_document", 1, 10) {
       self.fired.inc("torn_document");
       gen::torn(&mut self.rng, &text)
     } else if self.on("garbled_document", 1, 10) {
@@ -336,6 +342,45 @@ fn generate_synthetic(run_seed: u64, mode: Mode, mut w: Rng, f: Rng) -> Scenario
           let t2 = g.gen_module(&mut w, &m, true);
           batch.push((m, t2));
           faults.fired.inc("same_module_twice_in_batch");
+        }
+        if faults.on("unchanged_documents_in_batch", 1, 6) {
+          // "save all": documents whose text did not change travel in the same batch as the ones
+          // that did — before or after them
+          let others: Vec<(ModName, String)> =
+            old.iter().filter(|(m, _)| !batch.iter().any(|(b, _)| b == *m)).map(|(m, t)| (m.clone(), t.clone())).collect();
+          if !others.is_empty() {
+            // preferably the modules that import what changed: they sit between the change and
+            // everything further downstream
+            let imports_of = |text: &str, m: &ModName| {
+              let name = m.join(".");
+              text.lines().any(|l| l.starts_with("import ") && (l.ends_with(&format!("from {name}")) || l.ends_with(&format!("from {name};"))))
+            };
+            let direct: Vec<(ModName, String)> =
+              others.iter().filter(|(_, t)| batch.iter().any(|(b, _)| imports_of(t, b))).cloned().collect();
+            for _ in 0..w.range(1, 3) {
+              let o = if !direct.is_empty() && w.chance(2, 3) { w.pick(&direct).clone() } else { w.pick(&others).clone() };
+              if !batch.iter().any(|(b, _)| *b == o.0) {
+                let at = w.below(batch.len() + 1);
+                batch.insert(at, o);
+              }
+            }
+            faults.fired.inc("unchanged_documents_in_batch");
+            // reach probe: an unchanged batch member B that imports a changed batch member A and is
+            // itself imported by a module C outside the batch that does not import A
+            let imports = |text: &str, m: &ModName| {
+              let name = m.join(".");
+              text.lines().any(|l| l.starts_with("import ") && (l.ends_with(&format!("from {name}")) || l.ends_with(&format!("from {name};"))))
+            };
+            let shielded = batch.iter().any(|(b, bt)| {
+              old.get(b) == Some(bt)
+                && batch.iter().any(|(a, at)| a != b && old.get(a) != Some(at) && imports(bt, a) && {
+                  old.iter().any(|(c, ct)| !batch.iter().any(|(x, _)| x == c) && imports(ct, b) && !imports(ct, a))
+                })
+            });
+            if shielded {
+              faults.fired.inc("unchanged_batch_member_between_changed_module_and_outside_importer");
+            }
+          }
         }
         for (m, t) in &batch {
           belief.insert(m.clone(), t.clone());
